@@ -309,6 +309,14 @@ def run_program(job):
                                              "arg": s["arg"], "before": s["before"], "after": s["after"], "ctx": s.get("ctx", {})})
                         for h in s.get("ctx", {}).values():
                             res["texts"][h] = st.texts[h]
+                    elif s["changed"] and s["fn"] == "<ctx>" and s.get("ctx_before") and "runtime" in s["ctx_before"] \
+                            and "runtime" in s.get("ctx_after", {}):
+                        # context-level pass (FunctionInlinerPass): the functions before and after, by hash
+                        res["snaps"].append({"prog": entry["name"], "level": level, "pass": s["pass"], "fn": "<ctx>", "idx": s["idx"],
+                                             "arg": s["arg"], "before": "", "after": "", "ctx_before": s["ctx_before"],
+                                             "ctx_after": s["ctx_after"]})
+                        for h in list(s["ctx_before"].values()) + list(s["ctx_after"].values()):
+                            res["texts"][h] = st.texts[h]
             obs = observe(entry, out, abi, plan)
             diff = R.first_difference(ref, obs)
             names = H.pipeline_pass_names(level)
